@@ -44,6 +44,7 @@ class Stats(object):
     def __init__(self):
         self.evaluations = 0
         self.nontrivial = set()
+        self.nontrivial_enumerated = 0   # distinct by construction (exhaustive enumerations)
         self.labels = collections.Counter()
         self.classes = collections.Counter()
         self.samples = {}          # label -> list of rendered cases
@@ -65,6 +66,9 @@ class Stats(object):
     def nontriv(self, ident):
         """Record one non-trivial case, identified by bytes / json-able identity."""
         self.nontrivial.add(digest(ident))
+
+    def nontrivial_count(self):
+        return len(self.nontrivial) + self.nontrivial_enumerated
 
     def sample(self, label, rendered):
         lst = self.samples.setdefault(label, [])
@@ -88,6 +92,7 @@ class Stats(object):
     def merge(self, other):
         self.evaluations += other.evaluations
         self.nontrivial |= other.nontrivial
+        self.nontrivial_enumerated += other.nontrivial_enumerated
         self.labels.update(other.labels)
         self.classes.update(other.classes)
         for label, lst in other.samples.items():
